@@ -182,9 +182,10 @@ class Case:
                 links, lat, info = self.comp.expected(a, b)
                 self.exp[(a, b)] = (links, lat, info)
                 (risky if (info.deep or info.f21) else safe).append((a, b))
-        if len(risky) > MAX_RISKY:           # each of them may kill the child: bounded, evenly spread sample
-            step = len(risky) / float(MAX_RISKY)
-            risky = [risky[int(i * step)] for i in range(MAX_RISKY)]
+        cap = MAX_RISKY if flavour != "asan" else 4     # a sanitizer report cannot be survived: every one costs a new process
+        if len(risky) > cap:                 # bounded, evenly spread sample
+            step = len(risky) / float(cap)
+            risky = [risky[int(i * step)] for i in range(cap)]
         self.queries = safe + risky          # pairs that may crash the child (known deviations) are asked last ...
         self.risky = set(risky)              # ... and each in a forked copy of the child (QF), so that a crash only loses that answer
         self.answers = {}
@@ -327,6 +328,8 @@ def judge_case(ctx, case, scratch, state, corrupt=None):
                 raise core.HarnessFailure("%s: %d answers for %d queries" % (case.id, n, len(remaining)))
             break
         # the child died or span inside query number n
+        if os.environ.get("VERIF_DEBUG"):
+            print("DEBUG rerun %s attempt %d status %s after %d/%d %s" % (case.id, attempt, res.status, n, len(remaining), res.noise[:1]))
         if n >= len(remaining):
             ctx.violation("C24:crash-after-last-query:%s" % res.status, "%s: child ended with %s after answering every query: %s" % (case.id, res.status, res.noise[:3]), case.witness())
             return "bad"
@@ -354,7 +357,7 @@ def judge_case(ctx, case, scratch, state, corrupt=None):
                 print("DEBUG known crash %s %s %s->%s %s" % (symptom_key(case, info, sym), case.id, a, b, (reps or res.noise)[:2]))
             verdict = "bad"
         remaining = remaining[n + 1:]
-        if attempt >= 6 and remaining:
+        if attempt >= (3 if case.flavour == "asan" else 6) and remaining:
             ctx.count("pairs_not_asked_after_repeated_crashes", len(remaining))
             break
     return verdict
